@@ -82,11 +82,11 @@ def aero_direct(surfaces, flow, compressible=False, height=None, t_over_c=None, 
 def set_flow(prob, flow):
     for k, n in (("v", "v"), ("alpha", "alpha"), ("beta", "beta"), ("Mach", "Mach_number"), ("re", "re"), ("rho", "rho")):
         if k in flow:
-            prob.set_val(n, flow[k])
+            prob.set_val(n, flow[k], units=BASE_UNITS.get(n))
     if "cg" in flow:
-        prob.set_val("cg", np.array(flow["cg"], float))
+        prob.set_val("cg", np.array(flow["cg"], float), units="m")
     if "omega" in flow:
-        prob.set_val("omega", np.array(flow["omega"], float))
+        prob.set_val("omega", np.array(flow["omega"], float), units="rad/s")
 
 
 def aero_outputs(prob, surfaces, point="aero_point_0"):
